@@ -51,6 +51,9 @@ class Translator:
         self.extra = extra_calls or {}
         # python class name -> lean predicate applied as a function `(pred x)` (e.g. schema-dependent kinds)
         self.isinstance_extra = isinstance_extra or {}
+        # single-assignment locals (`same = a == b`, `inner = a.type`): inlined
+        self.bool_locals = {}
+        self.term_locals = {}
 
     # ---- expressions ---------------------------------------------------
     def expr(self, e):
@@ -61,6 +64,8 @@ class Translator:
             return "(!" + self.expr(e.operand) + ")"
         if isinstance(e, ast.Constant) and isinstance(e.value, bool):
             return "true" if e.value else "false"
+        if isinstance(e, ast.Name) and e.id in self.bool_locals:
+            return self.bool_locals[e.id]
         if isinstance(e, ast.Call):
             fn = e.func
             if isinstance(fn, ast.Attribute) and isinstance(fn.value, ast.Name) and fn.value.id == "self":
@@ -114,6 +119,8 @@ class Translator:
 
     def term(self, e):
         if isinstance(e, ast.Name):
+            if e.id in self.term_locals:
+                return self.term_locals[e.id]
             if e.id in self.params:
                 return e.id
             raise Untranslatable("free variable " + e.id)
@@ -135,6 +142,16 @@ class Translator:
             if s.value is None:
                 raise Untranslatable("bare return")
             return self.expr(s.value)
+        if (isinstance(s, ast.Assign) and len(s.targets) == 1 and isinstance(s.targets[0], ast.Name)
+                and s.targets[0].id not in self.params
+                and s.targets[0].id not in self.bool_locals and s.targets[0].id not in self.term_locals):
+            # a local bound once: inline it (pure expressions only, so evaluation order does not matter)
+            name = s.targets[0].id
+            try:
+                self.term_locals[name] = "(%s)" % self.term(s.value) if not isinstance(s.value, ast.Name) else self.term(s.value)
+            except Untranslatable:
+                self.bool_locals[name] = self.expr(s.value)
+            return self.block(rest, fallthrough)
         if isinstance(s, ast.If):
             after = self.block(rest, fallthrough)
             return "(if %s then %s else %s)" % (
